@@ -230,6 +230,22 @@ def explore(ctx: Ctx):
         if len(d.get('bg') or []) >= 3 and d.get('mask'):
             designs.append(d)
             extra += 1
+    # ... and a class whose custom VCF names its records by a multi-valued INFO tag (Number=.) carrying two or three values
+    r_multi = random.Random(f'C12-multi-valued-id-{ctx.seed}')
+    extra = 0
+    for _ in range(40 * n):
+        if extra >= max(3, n // 12):
+            break
+        d = gen.gen_sge(r_multi, {'p_bg': 0.0, 'p_custom': 1.0, 'p_pam': 0.3, 'p_gtf': 0.5, 'p_table': 0.0, 'custom_kinds': ['snv', 'snv', 'mnv', 'ins', 'del'], 'n_custom': [3, 5]})
+        f0 = next((f for f in d.get('vcfs') or [] if f.get('id_tag') and f['records']), None)
+        if f0 is None:
+            continue
+        f0['id_number'] = '.'
+        f0.pop('id_type', None)
+        for k, rec in enumerate(f0['records']):
+            rec['info'] = dict(rec.get('info') or {}, **{f0['id_tag']: ','.join(f'rs{r_multi.randint(100, 999)}' for _ in range(2 + k % 2))})
+        designs.append(d)
+        extra += 1
     seeds = ['0', '1', '2', str(3 + ctx.seed)]
     jobs, index = [], []
     for i, d in enumerate(designs):
